@@ -370,6 +370,125 @@ pub fn mutate(rng: &mut Rng, s: &str) -> String {
     chars.into_iter().collect()
 }
 
+/// Runs the Miri driver (/verif/miri) on `inputs` in a subprocess and folds what it reports into the case.
+fn miri_batch(case: &mut Case, inputs: &[String]) {
+    use std::io::Read;
+    let dir = util::scratch_base().join(format!("gv-miri-{}-{}", std::process::id(), hash_str(&inputs.join("|")) % 100_000));
+    let _ = std::fs::create_dir_all(&dir);
+    let file = dir.join("inputs.txt");
+    if std::fs::write(&file, inputs.join("\n\u{1e}\n")).is_err() {
+        case.count("miri_not_run", 1);
+        return;
+    }
+    case.input = Some(json!({"label": "miri", "inputs": inputs}));
+    let manifest = util::verif_root().join("miri/Cargo.toml");
+    let child = std::process::Command::new("cargo")
+        .arg("+nightly")
+        .arg("miri")
+        .arg("run")
+        .arg("--offline")
+        .arg("--quiet")
+        .arg("--manifest-path")
+        .arg(&manifest)
+        .arg("--")
+        .arg(&file)
+        .env("CARGO_NET_OFFLINE", "true")
+        .env("MIRIFLAGS", "-Zmiri-disable-isolation -Zmiri-disable-stacked-borrows")
+        .stdin(std::process::Stdio::null())
+        .stdout(std::process::Stdio::piped())
+        .stderr(std::process::Stdio::piped())
+        .spawn();
+    let Ok(mut child) = child else {
+        case.count("miri_not_run", 1);
+        let _ = std::fs::remove_dir_all(&dir);
+        return;
+    };
+    // generous wall-clock watchdog; its firing is "not observed", not a verdict
+    let t0 = std::time::Instant::now();
+    let mut out_pipe = child.stdout.take();
+    let mut err_pipe = child.stderr.take();
+    let th_out = std::thread::spawn(move || {
+        let mut s = String::new();
+        if let Some(p) = out_pipe.as_mut() {
+            let _ = p.read_to_string(&mut s);
+        }
+        s
+    });
+    let th_err = std::thread::spawn(move || {
+        let mut s = String::new();
+        if let Some(p) = err_pipe.as_mut() {
+            let _ = p.read_to_string(&mut s);
+        }
+        s
+    });
+    let mut timed_out = false;
+    let status = loop {
+        match child.try_wait() {
+            Ok(Some(st)) => break Some(st),
+            Ok(None) => {
+                if t0.elapsed().as_secs() > 1500 {
+                    let _ = child.kill();
+                    let _ = child.wait();
+                    timed_out = true;
+                    break None;
+                }
+                std::thread::sleep(std::time::Duration::from_millis(200));
+            }
+            Err(_) => break None,
+        }
+    };
+    let stdout = th_out.join().unwrap_or_default();
+    let stderr = th_err.join().unwrap_or_default();
+    let _ = std::fs::remove_dir_all(&dir);
+    if timed_out {
+        case.count("miri_timeouts", 1);
+        return;
+    }
+    let first_repo_frame = |text: &str| -> Option<String> {
+        text.lines().find_map(|l| {
+            let k = l.find("/repo/crates/")?;
+            let rest = &l[k + "/repo/".len()..];
+            let end = rest.find(|ch: char| ch == ':' || ch.is_whitespace()).unwrap_or(rest.len());
+            Some(rest[..end].to_string())
+        })
+    };
+    if stderr.contains("Undefined Behavior") {
+        match first_repo_frame(&stderr) {
+            Some(fr) => {
+                let what = stderr.lines().find(|l| l.contains("Undefined Behavior")).unwrap_or("").trim().to_string();
+                case.violation(format!("miri-undefined-behaviour:{}", fr), format!("Miri reports undefined behaviour in the front end: {}", util::truncate(&what, 200)), json!({"stderr": util::truncate(&stderr, 4000), "inputs": inputs}));
+            }
+            None => case.count("miri_reports_outside_repository", 1),
+        }
+        return;
+    }
+    if let Some(l) = stdout.lines().find(|l| l.starts_with("MIRI-DRIVER-MISMATCH")) {
+        case.violation("miri-driver-mismatch".to_string(), format!("the front-end driver under Miri reports: {}", l), json!({"stdout": util::truncate(&stdout, 2000), "inputs": inputs}));
+        return;
+    }
+    if let Some(l) = stdout.lines().find(|l| l.starts_with("MIRI-DRIVER-OK")) {
+        let num = |key: &str| -> u64 {
+            l.split_whitespace().find_map(|w| w.strip_prefix(key).and_then(|v| v.parse::<u64>().ok())).unwrap_or(0)
+        };
+        case.count("miri_runs_clean", 1);
+        case.count("miri_inputs", num("inputs="));
+        case.count("miri_tokens", num("tokens="));
+        case.count("miri_tree_elements", num("elements="));
+        case.sample(json!({"workload": "miri", "inputs": inputs.len(), "report": l}));
+        return;
+    }
+    if stderr.contains("panicked at") {
+        if let Some(fr) = first_repo_frame(&stderr) {
+            let what = stderr.lines().find(|l| l.contains("panicked at")).unwrap_or("").trim().to_string();
+            case.violation(format!("miri-driver-panic:{}", fr), format!("the front end panics under the Miri driver: {}", util::truncate(&what, 200)), json!({"stderr": util::truncate(&stderr, 4000), "inputs": inputs}));
+            return;
+        }
+    }
+    let _ = status;
+    case.count("miri_not_run", 1);
+    eprintln!("miri driver gave no report: {}", util::truncate(&stderr, 400));
+}
+
 fn run(ctx: &mut Ctx) {
     if let Some(rep) = ctx.replay_input.clone() {
         let mut inputs: Vec<String> = Vec::new();
@@ -428,7 +547,7 @@ fn run(ctx: &mut Ctx) {
         }
     }
     // B. token soups
-    let soups = tier.pick(600, 20_000) / ctx.nshards as u64 + 1;
+    let soups = tier.pickn(600, 20_000) / ctx.nshards as u64 + 1;
     for i in 0..soups {
         let mut rng = Rng::keyed(seed, "c12-soup", ctx.shard as u64, i);
         let mut b = Vec::new();
@@ -447,7 +566,7 @@ fn run(ctx: &mut Ctx) {
         ctx.case(&format!("soup/{}/{}", ctx.shard, i), |c| check_batch(c, "token_soup", &b));
     }
     // C. multiline-string torture
-    let ml = tier.pick(200, 5_000) / ctx.nshards as u64 + 1;
+    let ml = tier.pickn(200, 5_000) / ctx.nshards as u64 + 1;
     let ml_parts: &[&str] = ML_PARTS;
     for i in 0..ml {
         let mut rng = Rng::keyed(seed, "c12-ml", ctx.shard as u64, i);
@@ -545,6 +664,43 @@ fn run(ctx: &mut Ctx) {
             let b = std::mem::take(&mut batch);
             ctx.case("lookahead/tail", |c| check_batch(c, "lookahead_budget", &b));
         }
+    }
+    // G. sanitizer supplement: the same front-end driver (lexer tiling, lossless tree, every element's kind read through
+    // `kind_from_raw`'s transmute, trees dropped in two orders) under Miri on a small slice of the inputs of this shard.
+    // Only when ./check could build the driver (VERIF_MIRI=1); everything but an undefined-behaviour report, a mismatch
+    // or a panic whose first repository frame is in crates/ is recorded as "not observed", never as a violation.
+    if std::env::var("VERIF_MIRI").as_deref() == Ok("1") && (tier == crate::runner::Tier::Thorough || ctx.shard < 4) {
+        let budget = tier.pick(700usize, 5_000usize);
+        let mut inputs: Vec<String> = Vec::new();
+        let mut used = 0usize;
+        let mut rng = Rng::keyed(seed, "c12-miri", ctx.shard as u64, 0);
+        let mut order: Vec<usize> = (0..corpus.len()).filter(|fi| ctx.mine(*fi as u64)).collect();
+        rng.shuffle(&mut order);
+        for fi in order {
+            let t = &corpus[fi].1;
+            if used + t.len() <= budget * 2 / 3 && !t.contains('\u{1e}') {
+                used += t.len();
+                inputs.push(t.clone());
+                // a truncated and a mutated sibling (error recovery paths)
+                let cut = (0..t.len()).rev().find(|k| t.is_char_boundary(*k) && *k <= t.len() / 2).unwrap_or(0);
+                inputs.push(t[..cut].to_string());
+                used += cut;
+                let m = mutate(&mut rng, t);
+                if !m.contains('\u{1e}') {
+                    used += m.len();
+                    inputs.push(m);
+                }
+            }
+        }
+        while used < budget {
+            let mut s2 = String::new();
+            for _ in 0..(1 + rng.below(25)) {
+                s2.push_str(if rng.bool() { rng.pick(TOKEN_POOL) } else { rng.pick(ML_PARTS) });
+            }
+            used += s2.len() + 1;
+            inputs.push(s2);
+        }
+        ctx.case(&format!("miri/{}", ctx.shard), |c| miri_batch(c, &inputs));
     }
     // E. parser-fuel inputs (long runs of a token the parser may refuse to consume)
     if ctx.shard == 0 {
